@@ -48,7 +48,11 @@ def rand_hard_constraint(rng, seq, kinds=None):
         return d
     if k == "keep_idx":
         idx = sorted(rng.sample(range(n), rng.randint(1, min(4, n))))
-        return dict(kind="keep_idx", indices=idx)
+        d = dict(kind="keep_idx", indices=idx)
+        if rng.random() < 0.25:
+            # indices given together with a (wider) location
+            d["location"] = [max(0, idx[0] - rng.randint(0, 3)), min(n, idx[-1] + 1 + rng.randint(0, 3)), 1]
+        return d
     if k in ("cds", "rare"):
         if n < 3:
             return dict(kind="keep", location=[0, n, 1])
@@ -95,6 +99,8 @@ def build_constraint(d):
             return dc.AvoidChanges(location=loc, max_edits_percent=d["max_edits_percent"])
         return dc.AvoidChanges(location=loc)
     if k == "keep_idx":
+        if d.get("location"):
+            return dc.AvoidChanges(indices=list(d["indices"]), location=loc)
         return dc.AvoidChanges(indices=list(d["indices"]))
     if k == "cds":
         return dc.EnforceTranslation(location=loc, genetic_table=d["table"], start_codon=d["start_codon"],
